@@ -16,7 +16,9 @@ C19_Recovers(o) ==
        /\ \E p \in (j + 1) .. Len(o) : o[p].k = "pushed" /\
             \E d \in (p + 1) .. Len(o) : o[d].k = "delivered" /\ o[d].tag = o[p].tag
 (* the background listener never busy-loops: at most 1000 iterations per second *)
-C19_NoSpin(o) == \A i \in Idx(o) : o[i].k = "rate" => o[i].n <= 250
+C19_NoSpin(o) == /\ \A i \in Idx(o) : o[i].k = "rate" => o[i].n <= 250
+                 \* a server that turns the client away for 1.2 s is not hammered with handshakes meanwhile
+                 /\ \A i \in Idx(o) : o[i].k = "attempts" => o[i].n <= 200
 (* a send reports success only if the envelope was written to an established session.  What a *)
 (* server observes of that: the send made after everything settled is received; and of the     *)
 (* sends made on the first session before the fault the received ones are a prefix in send     *)
